@@ -885,7 +885,16 @@ type GlobalConfig struct {
 func (c *GlobalConfig) UnmarshalYAML(unmarshal func(any) error) error {
 	*c = DefaultGlobalConfig()
 	type plain GlobalConfig
-	return unmarshal((*plain)(c))
+	if err := unmarshal((*plain)(c)); err != nil {
+		return err
+	}
+	// An empty or null http_config replaces the default with nil; receivers
+	// without their own http_config copy the global one, so keep the default.
+	if c.HTTPConfig == nil {
+		defaultHTTPConfig := commoncfg.DefaultHTTPClientConfig
+		c.HTTPConfig = &defaultHTTPConfig
+	}
+	return nil
 }
 
 // A Route is a node that contains definitions of how to handle alerts.
